@@ -1102,4 +1102,112 @@ theorem gen_chain_ctor_wf {X C α : Type} {bs : List (B X C α)} {c : ChainObj X
 end MergeGen
 
 
+section Audit
+/-! ## Audit (g27): non-vacuity instances for hypothesis sets that had none, and totalisation made visible -/
+open GenJaxTr
+
+/-- lawful elementwise affine child of a given shape -/
+theorem audit_aff_lawful (l s : ℝ) (hs : s ≠ 0) (shape : List Nat) (n : Nat) (hn : n = Arr.prod shape) :
+    (elementwise (List.replicate n ((Affine.mk l s : Affine ℝ).toBij : Bij ℝ Unit ℝ))).Lawful (WS shape) (WS shape) :=
+  ArrComb.elementwise_lawful (shape := shape)
+    (fun b hb => by rw [List.eq_of_mem_replicate hb]; exact Leaves.affine_lawful _ hs) (by simp [hn])
+
+-- D2 case: Stack([b(2,3), b(2,3)], axis=-1)
+theorem gen_stack_ctor_audit_instance :
+    let kids : List (SBij (Arr ℝ) Unit ℝ) :=
+      [SBij.ofBij (elementwise (List.replicate 6 ((Affine.mk 1 2 : Affine ℝ).toBij : Bij ℝ Unit ℝ))) [2, 3] none,
+       SBij.ofBij (elementwise (List.replicate 6 ((Affine.mk (-1) (-3) : Affine ℝ).toBij : Bij ℝ Unit ℝ))) [2, 3] none]
+    (Stack.init kids (-1)).shape = [2, 3, 2] ∧ (Stack.init kids (-1)).toBij.Lawful (WS [2, 3, 2]) (WS [2, 3, 2]) := by
+  intro kids
+  have h := gen_stack_ctor_lawful kids (-1) [2, 3, 2] none (by decide) (by
+    intro b hb
+    simp only [kids, List.mem_cons, List.not_mem_nil, or_false] at hb
+    rcases hb with rfl | rfl
+    · exact audit_aff_lawful 1 2 (by norm_num) [2, 3] 6 (by decide)
+    · exact audit_aff_lawful (-1) (-3) (by norm_num) [2, 3] 6 (by decide))
+  exact ⟨h.1, h.2.2.2.2⟩
+
+
+/-- Reshape((2,3)-bijection, shape=(3,2)) -/
+theorem gen_reshape_ctor_audit_instance :
+    let b : SBij (Arr ℝ) (Arr ℝ) ℝ :=
+      SBij.ofBij (elementwise (List.replicate 6 ((Affine.mk 1 2 : Affine ℝ).toBij : Bij ℝ (Arr ℝ) ℝ))) [2, 3] none
+    (Reshape.init b (some [3, 2]) none).shape = [3, 2]
+    ∧ (Reshape.init b (some [3, 2]) none).toBij.Lawful (WS [3, 2]) (WS [3, 2]) := by
+  intro b
+  have h := gen_reshape_ctor_lawful b (some [3, 2]) none [3, 2] none (by decide)
+    (ArrComb.elementwise_lawful (shape := [2, 3])
+      (fun b hb => by rw [List.eq_of_mem_replicate hb]; exact Leaves.affine_lawful _ (by norm_num)) (by decide))
+  exact ⟨h.1, h.2.2.2.2⟩
+
+/-- generated Partial: shape (2,3), idxs = column 1 (`[:, 1]`: sub-shape (2,), flat positions 1, 4) -/
+theorem gen_partial_audit_instance :
+    let g : Partial ℝ Unit ℝ :=
+      ⟨SBij.ofBij (elementwise (List.replicate 2 ((Affine.mk 1 2 : Affine ℝ).toBij : Bij ℝ Unit ℝ))) [2] none, ⟨[2], [1, 4]⟩, [2, 3]⟩
+    g.toBij.Lawful (WS [2, 3]) (WS [2, 3])
+    ∧ ∀ x ∈ WS [2, 3], getIdx (g.transform x ()) g.idxs = g.bijection.fwd (getIdx x g.idxs) () := by
+  intro g
+  have hb : g.bijection.toBij.Lawful (WS g.idxs.sub) (WS g.idxs.sub) := audit_aff_lawful 1 2 (by norm_num) [2] 2 (by decide)
+  exact ⟨gen_partial_lawful g hb (by decide) (by decide) (by decide),
+    fun x hx => (gen_partial_indexed g hb (by decide) (by decide) (by decide) hx ()).1⟩
+
+/-- chain_lawful / ChainLawful with two different non-identity leaves and a domain change: exp : ℝ → (0,∞), then ×2 on (0,∞) -/
+theorem chain_lawful_audit_instance :
+    (Chain.mk [((Affine.mk 1 2 : Affine ℝ).toBij : Bij ℝ Unit ℝ), ((Affine.mk 0 (-3) : Affine ℝ).toBij : Bij ℝ Unit ℝ)]).toBij.Lawful univ univ :=
+  chain_lawful (.cons (Leaves.affine_lawful _ (by norm_num)) (.cons (Leaves.affine_lawful _ (by norm_num)) (.nil _)))
+
+/-- a conditional scalar leaf: shift by the first entry of the condition, scale 2 -/
+noncomputable def auditCondLeaf : Bij ℝ (Arr ℝ) ℝ :=
+  ⟨fun x c => 2 * x + c.data.headD 0, fun y c => (y - c.data.headD 0) / 2,
+   fun x c => (2 * x + c.data.headD 0, 7), fun y c => ((y - c.data.headD 0) / 2, -7)⟩
+
+theorem auditCondLeaf_lawful : auditCondLeaf.Lawful univ univ :=
+  ⟨fun _ _ _ => trivial, fun _ _ _ => trivial, fun x _ c => by simp [auditCondLeaf],
+   fun y _ c => by simp [auditCondLeaf]; ring, fun _ _ => rfl, fun _ _ => rfl⟩
+
+/-- Vmap with the CONDITION MAPPED along axis −1 -/
+theorem gen_vmap_mapped_cond_audit_instance :
+    let child : SBij (Arr ℝ) (Arr ℝ) ℝ := SBij.ofBij (ArrComb.elementwise [auditCondLeaf]) [1] (some [1])
+    let v : JaxTr.Vmap ℝ ℝ := ⟨⟨child, []⟩, (none, 0, some (-1)), 2, some [1, 2]⟩
+    let c : Arr ℝ := ⟨[1, 2], [10, 20]⟩
+    let x : Arr ℝ := ⟨[2, 1], [1, 2]⟩
+    Vmap.inverse v (Vmap.transform v x c) c = x := by
+  intro child v c x
+  have hb : ∀ b ∈ JaxTr.mapModule v.in_axes.1 v.bijection v.axis_size, b.toBij.Lawful (WS [1]) (WS [1]) := by
+    intro b hb
+    simp only [v, JaxTr.mapModule, List.mem_replicate] at hb
+    rw [hb.2]
+    exact ArrComb.elementwise_lawful (shape := [1]) (by intro b hb; simp at hb; subst hb; exact auditCondLeaf_lawful) (by simp [Arr.prod])
+  have hx : x ∈ WS (v.axis_size :: [1]) := by constructor <;> rfl
+  have h := gen_vmap_roundtrip v [1] c rfl rfl (by decide) hb hx
+  exact h.2.2.1
+
+/-- evaluated over ℕ: slice `i` of x is paired with slice `i` of the condition taken along axis −1 (x = [[1],[2]], condition = [[10,20]]) -/
+theorem gen_vmap_mapped_cond_eval_audit_instance :
+    let leaf : Bij Nat (Arr Nat) Nat := ⟨fun x c => 2 * x + c.data.headD 0, fun y c => (y - c.data.headD 0) / 2,
+        fun x c => (2 * x + c.data.headD 0, 7), fun y c => ((y - c.data.headD 0) / 2, 3)⟩
+    let child : SBij (Arr Nat) (Arr Nat) Nat := SBij.ofBij (ArrComb.elementwise [leaf]) [1] (some [1])
+    let v : JaxTr.Vmap Nat Nat := ⟨⟨child, []⟩, (none, 0, some (-1)), 2, some [1, 2]⟩
+    (Vmap.transform v ⟨[2, 1], [1, 2]⟩ ⟨[1, 2], [10, 20]⟩).data = [12, 24]
+    ∧ (Vmap.transform v ⟨[2, 1], [1, 2]⟩ ⟨[1, 2], [10, 20]⟩).shape = [2, 1]
+    ∧ (Vmap.inverse_and_log_det v ⟨[2, 1], [12, 24]⟩ ⟨[1, 2], [10, 20]⟩).1.data = [1, 2]
+    ∧ (Vmap.inverse_and_log_det v ⟨[2, 1], [12, 24]⟩ ⟨[1, 2], [10, 20]⟩).2 = 6 := by decide
+
+/-- totalisation made visible -/
+theorem totalisation_audit_instance :
+    let sh (k : Nat) : Bij Nat Unit Nat := ⟨fun x _ => x + k, fun y _ => y - k, fun x _ => (x + k, 0), fun y _ => (y - k, 0)⟩
+    -- duplicate positions: accepted by the model (and by the real constructor); last write wins
+    ((partialB [4] [2] [1, 1] (elementwise [sh 10, sh 20])).fwd ⟨[4], [1, 2, 3, 4]⟩ ()).data = [1, 22, 3, 4]
+    -- out-of-range position: the model reads `default` and drops the write
+    ∧ ((partialB [4] [2] [1, 7] (elementwise [sh 10, sh 20])).fwd ⟨[4], [1, 2, 3, 4]⟩ ()).data = [1, 12, 3, 4]
+    -- a wrong-shaped input still comes back with the declared shape
+    ∧ ((concatenate ⟨[2, 3], 1, [1, 2]⟩ [elementwise (List.replicate 2 (sh 10)), elementwise (List.replicate 4 (sh 20))]).fwd
+        ⟨[5], [1, 2, 3, 4, 5]⟩ ()).shape = [2, 3]
+    ∧ ((concatenate ⟨[2, 3], 1, [1, 2]⟩ [elementwise (List.replicate 2 (sh 10)), elementwise (List.replicate 4 (sh 20))]).fwd
+        ⟨[5], [1, 2, 3, 4, 5]⟩ ()).data = [11, 22, 23, 14, 25]
+    -- `c[3:]` of a 3-chain is the empty chain in the model (the real `Chain(())` raises IndexError)
+    ∧ ((Chain.mk [sh 1, sh 2, sh 3]).getSlice 3 3).len = 0 := by decide
+
+end Audit
+
 end C08
